@@ -159,8 +159,8 @@ func (t *Dense) WriteCSV(w io.Writer, formats ...string) (err error) {
 			// lastRow = coord[len(coord)-2]
 			lastCol = coord[len(coord)-1]
 		case t.IsColVec():
-			// lastRow = coord[len(coord)-1]
-			lastCol = coord[len(coord)-2]
+			// lastRow = coord[len(coord)-2]
+			lastCol = coord[len(coord)-1]
 		case t.IsVector():
 			lastCol = coord[len(coord)-1]
 		default:
